@@ -41,3 +41,24 @@ Theorem C07_trace_acceptor_sound : forall base tol tr,
   a_need (acc_run base tol tr) = None /\ a_ok (acc_run base tol tr) = true.
 Proof. exact trace_accepts_need. Qed.
 Print Assumptions C07_trace_acceptor_sound.
+
+(* Composition with C19: the deadline index is a skip list ordered by the comparator generated
+   from ares_query_timeout_cmp_cb, which C07_deadline_order_total_preorder shows to be a total
+   preorder; so after ANY sequence of operations on the index the hint of ares_timeout_int is
+   never later than any pending deadline and never later than the caller's maximum - the
+   sortedness hypothesis of C07_hint_sound is discharged by C19's skip-list refinement. *)
+From CAres.Core Require Import Time Time_proofs Compose_index.
+From CAres.Dsa Require Import SList.
+Theorem C07_hint_sound_over_index : forall (ops : list (sl_op deadline)) now maxtv,
+  tv_ok now -> maxtv_ok maxtv ->
+  exists s0 rs s l,
+    sl_create true true = Some s0 /\ sl_run_model dl_cmp s0 ops = Ok (rs, s) /\ sl_walk_fwd s = Ok l /\
+    exists h, timeout_int (index_deadlines l) now maxtv = Ok h /\
+      let v := hint_value h maxtv in
+      (v = None <-> index_deadlines l = nil /\ maxtv = None) /\
+      (forall t, v = Some t ->
+         0 <= tv_sec t /\ 0 <= tv_usec t < 1000000 /\
+         (forall d, In d (index_deadlines l) -> tv_us t <= Z.max 0 (tv_us d - tv_us now)) /\
+         (forall m, maxtv = Some m -> tv_us t <= tv_us m)).
+Proof. exact hint_sound_over_index. Qed.
+Print Assumptions C07_hint_sound_over_index.
